@@ -15,7 +15,7 @@ RULE = ('(i) every clause body tree with <= N operators from , ; -> \\+ over the
         'the context of C05, with and without a continuation goal m(W) after the construct; (ii) every '
         'unparenthesised body l1 op1 l2 .. opk lk+1 (k <= K, ops from , ; ->, every leaf from {z o m true} '
         'optionally prefixed by \\+) compiled as written and compared with RefProlog run on the tree obtained by '
-        'an independent operator-precedence reading; (iii) deep spines: every tree with <= D operators over the leaves {o m z ! and q = a test on the variable of a two-solution goal in front of the body, so that the construct is entered twice with different outcomes} placed in ONE position (condition, then, else, either alternative, negated goal, either conjunct) of a construct whose other positions are single leaves, with a continuation goal. states = distinct answer sequences; transitions = '
+        'an independent operator-precedence reading; (iii) deep spines: every tree with <= D operators over the leaves {o m z ! and q = a test on the variable of a two-solution goal in front of the body, so that the construct is entered twice with different outcomes} placed in ONE position (condition, then, else, either alternative, negated goal, either conjunct) of a construct whose other positions are single leaves, with a continuation goal; every tree with exactly 3 operators over two of the leaves {o z !} in each TAIL position (then, else, right alternative, right conjunct); (iv) body-local variables: every tree <= 2 [thorough 3] operators whose leaves bind variables that do not occur in the head (X = a, Y = b, m(X), true, fail), exposed by a continuation R = r(X,Y). states = distinct answer sequences; transitions = '
         'next() calls on the real engine; non-trivial = at least one answer')
 ASSUMPTIONS = ['RefProlog implements the standard semantics of ; -> \\+ and cut',
                'cuts in the condition of -> or under \\+ are outside the property and skipped',
@@ -37,6 +37,8 @@ def plan(tier):
     kmax = 2 if tier == 'quick' else 3
     sh += [('prec', k, 16, kmax, tier) for k in range(16)]
     sh += [('spine', k, 64, 2, tier) for k in range(64)]
+    sh += [('tails', k, 64) for k in range(64)]
+    sh += [('locals', k, 16, 2 if tier == 'quick' else 3) for k in range(16)]
     if tier != 'quick':
         sh += [('spine', k, 256, 3, tier) for k in range(256)]
     return sh
@@ -57,6 +59,10 @@ def run_shard(spec):
         return run_trees(k, n, maxops, tier)
     if spec[0] == 'spine':
         return run_spines(spec)
+    if spec[0] == 'tails':
+        return run_tails(spec)
+    if spec[0] == 'locals':
+        return run_locals(spec)
     return run_prec(spec)
 
 
@@ -125,6 +131,85 @@ def spine_cases(dmax, small):
             yield (';', x, d)
             yield (',', d, x)
             yield (',', x, d)
+
+
+def tail_cases():
+    """every tree with exactly 3 operators over two of the leaves {o z !} in each TAIL position of a construct
+    (then, else, right alternative, right conjunct) whose other positions are the leaf o"""
+    o = ('L', 'o')
+    for leaves in (['o', '!'], ['z', '!'], ['o', 'z']):
+        for d in bodies.trees(3, leaves):
+            yield (';', ('->', o, d), o)
+            yield (';', ('->', ('L', 'z'), o), d)
+            yield (';', o, d)
+            yield (',', o, d)
+
+
+def local_var_cases(maxops):
+    """trees whose leaves bind BODY-LOCAL variables (X, Y never occur in the head); the
+    continuation R = r(X,Y) exposes them, so a binding that survives backtracking is visible"""
+    leaves = [('L', k) for k in ('lx', 'ly', 'true', 'fail', 'lm')]
+    out = []
+    for n in range(maxops + 1):
+        out += bodies.trees(n, ['lx', 'ly', 'true', 'fail', 'lm'])
+    return out
+
+
+def local_case(t):
+    from ..terms import C
+    Xl, Yl, R = V('X'), V('Y'), V('R')
+
+    def go(t_):
+        if t_[0] == 'L':
+            return {'lx': call(F('=', Xl, A('a'))), 'ly': call(F('=', Yl, A('b'))), 'true': TRUE, 'fail': FAIL,
+                    'lm': call(F('m', Xl))}[t_[1]]
+        if t_[0] == '\\+':
+            return ('\\+', go(t_[1]))
+        return (t_[0], go(t_[1]), go(t_[2]))
+    body = (',', go(t), call(F('=', R, F('r', Xl, Yl))))
+    clause = (F('p', R), body)
+    clause2 = (F('c', R, V('Z')), (',', call(F('m', V('Z'))), call(F('p', R))))
+    return Case([(LEAF_PROGRAM, True, True), ([clause, clause2], True, False)], [], [F('c', V('Q'), V('Qz')), F('p', V('Q'))], repeat=1)
+
+
+def run_locals(spec):
+    _, k, n, maxops = spec
+    acc = Acc()
+    for idx, t in enumerate(local_var_cases(maxops)):
+        if idx % n != k:
+            continue
+        case = local_case(t)
+        res = case.run()
+        if res['status'] == 'violation':
+            res['sig'] = 'body-local-variables:' + res['sig']
+        account(acc, (4, idx, 0), case, res, key=bodies.show_tree(t))
+        if res['status'] == 'ok' and res['nontrivial'] and idx % 503 == 0:
+            acc.sample({'body_local_tree': bodies.show_tree(t), 'program': case.describe()['scripts'][1]['text']}, limit=1)
+    return acc
+
+
+def run_tails(spec):
+    _, k, n = spec
+    acc = Acc()
+    seen = set()
+    for idx, t in enumerate(tail_cases()):
+        if idx % n != k:
+            continue
+        key = bodies.show_tree(t)
+        if key in seen:
+            continue
+        seen.add(key)
+        tr, op = bodies.cut_positions(t)
+        if op:
+            acc.n['evaluations'] += 1
+            acc.skipped['opaque-cut'] += 1
+            continue
+        case = treecheck.tree_case(t, prefix=False, suffix=1)
+        res = case.run()
+        if res['status'] == 'violation':
+            res['sig'] = 'deep-tail:' + res['sig']
+        account(acc, (3, idx, 0), case, res, key=key)
+    return acc
 
 
 def run_spines(spec):
